@@ -193,6 +193,14 @@ struct R3Monitor {
     tx.t_nack = w.now();
   }
 
+  // The send call for the first transmission of this message failed and coap_send() reported the failure to the caller: the
+  // message was never accepted for sending, the attempt seen at the socket is not an exchange.
+  void first_send_refused(int node, coap_session_t *s, int mid) {
+    Key k{node, cx::local_of(s), cx::remote_of(s), mid & 0xffff};
+    auto it = m.find(k);
+    if (it != m.end() && it->second.t.size() == 1) m.erase(it);
+  }
+
   void session_gone(int node, simk::Addr local, simk::Addr remote) {
     for (auto &kv : m)
       if (kv.first.node == node && kv.first.src == local && kv.first.dst == remote) kv.second.session_gone = true;
